@@ -350,12 +350,15 @@ def _for_over(ex, stmt, st, it, key, lc):
         # cases built from a known shape) and no loop contract: unrolled like a concrete sequence
         o = st.objs[it.oid]
         seq = o.get('SEQ')
-        if isinstance(seq, LRef) and o.get('K') == 0 and all(x[0] == 'el' for x in st.lists[seq.lid]) \
+        k0 = o.get('K')
+        if isinstance(k0, SInt) and z3.is_int_value(z3.simplify(k0.z)):
+            k0 = z3.simplify(k0.z).as_long()        # (advanced by next() a known number of times)
+        if isinstance(seq, LRef) and isinstance(k0, int) and all(x[0] == 'el' for x in st.lists[seq.lid]) \
                 and not (hasattr(ex, 'is_tokens_list') and ex.is_tokens_list(st, seq)):
             vals = [x[1] for x in st.lists[seq.lid]]
             if it.kind == 'enum_iter':
                 vals = [(i, v) for i, v in enumerate(vals)]
-            return _unroll(ex, stmt, st, vals)
+            return _unroll(ex, stmt, st, vals[k0:])
     if isinstance(it, Rec) and it.kind in ('enum_iter', 'seq_iter'):
         st.ghost['IT' + (key or 'x').replace('.', '_')] = it
         # iterator over an abstract sequence with ghost position K (0 <= K <= N)
